@@ -41,7 +41,10 @@ class RunSpawn(X.Scripted):
 
     def __init__(self, command, timeout=30, maxread=2000, logfile=None, cwd=None, env=None, **kw):
         cfg = RunSpawn.cfg
-        X.Scripted.__init__(self, [list(e) for e in cfg['script']], cfg['mode'], cfg['clock'])
+        # the mode is the one run() asks for (encoding keyword), not the one the case intends: a run() that loses the
+        # keyword on the way builds a bytes-mode spawn and is judged on what it then returns
+        mode = 'u' if kw.get('encoding') else 'b'
+        X.Scripted.__init__(self, [list(e) for e in cfg['script']], mode, cfg['clock'])
         self.timeout = timeout
         self.maxread = maxread
         self.searchwindowsize = kw.get('searchwindowsize')
@@ -144,6 +147,7 @@ def run_real(case):
                 out['status'] = ret[1]
                 ret = ret[0]
             out['ret'] = totext(ret)
+            out['ret_type'] = type(ret).__name__
             out['end'] = 'return'
         except Fuel:
             out['end'] = 'fuel'
@@ -215,6 +219,7 @@ def canon_real(case, out):
     while k < len(acts):
         a = acts[k]
         f = idxfin[n] if n < len(idxfin) else ['idx', -1, '', '?']
+        f = list(f)
         af = f[3] if f[3] in ('EOF', 'TIMEOUT') else X.enc_text(f[3])
         if a[0] == 'send':
             log.append('%d:%s:S%s' % (f[1], af, X.enc_text(a[1]))); sent.append(a[1]); k += 1
@@ -280,44 +285,51 @@ def oracle(case, out):
     ret = out['ret']
     if not fin:
         return 'run() returned without calling expect'
+    want_type = 'str' if case['mode'] == 'u' else 'bytes'
+    if out.get('ret_type') != want_type:
+        return 'run() returned %s in %s mode' % (out.get('ret_type'), 'unicode' if case['mode'] == 'u' else 'bytes')
     last = fin[-1]
     whole = last[0] in ('EOF', 'TIMEOUT') or (last[0] == 'idx' and last[3] in ('TIMEOUT', 'EOF'))
     if whole:
         if ret != got:
-            return 'returned %r but the child wrote %r (stop: %s)' % (ret, got, last[0] if last[0] != 'idx' else 'callback on ' + last[3])
+            return 'returned %r but the child wrote %r (stop: %s)' % (ret[:80], got[:80], last[0] if last[0] != 'idx' else 'callback on ' + last[3])
     else:
         if ret + (out['pending'] or '') != got:
-            return 'returned %r + pending %r != written %r' % (ret, out['pending'], got)
-    # every reported index is answered exactly once, in order, by the response listed with it
-    exp = []
+            return 'returned %r + pending %r != written %r' % (ret[:80], (out['pending'] or '')[:40], got[:80])
+    # what the table says must happen, from naive re-search of the stream after every read with the *caller's* patterns:
+    # every reported occurrence (and a listed EOF / TIMEOUT) is answered exactly once, in order, by the response listed with it
     evs = case['events'] or []
-    count = 0
-    for f in fin:
-        if f[0] != 'idx':
-            break
-        resp = evs[f[1]][1]
-        if resp[0] == 's':
-            exp.append(['send', resp[1]])
-        elif resp[0] in ('f', 'm'):
-            res = case['cb'].get('%d:%d' % (resp[1], count), ['cont', None])
-            exp.append(['cbret', resp[1], count, res[0]])
-            if res[0] == 's':
-                exp.append(['send', res[1]])
-        count += 1
-    if out['actions'] != exp:
-        return 'responses %r, expected from the reported matches %r' % (out['actions'], exp)
-    # the reported matches are those of naive re-search after every read (C03 for run's calls)
+    nev = len(evs)
     ecase = dict(mode=case['mode'], script=case['script'],
                  ops=[dict(k='r', W=case.get('W'), pats=[p for p, _ in evs]) for _ in fin])
     naive = X.run_naive(ecase)
+    exp = []
+    count = 0
     for n, (f, nv) in enumerate(zip(fin, naive)):
-        if f[0] == 'idx':
-            ok = (nv['kind'] in ('hit', 'eofidx', 'timeoutidx') and nv['index'] == f[1] and nv['before'] == f[2] and
-                  (nv['after'] == f[3] if nv['kind'] == 'hit' else True))
+        if nv['kind'] in ('hit', 'eofidx', 'timeoutidx'):
+            if f[0] == 'idx' and 0 <= f[1] < nev:
+                ok = (nv['index'] == f[1] and nv['before'] == f[2] and (nv['after'] == f[3] if nv['kind'] == 'hit' else True))
+            else:
+                ok = False
+            resp = evs[nv['index']][1]
+            if resp[0] == 's':
+                exp.append(['send', resp[1]])
+            elif resp[0] in ('f', 'm'):
+                res = case['cb'].get('%d:%d' % (resp[1], count), ['cont', None])
+                exp.append(['cbret', resp[1], count, res[0]])
+                if res[0] == 's':
+                    exp.append(['send', res[1]])
+            count += 1
         else:
-            ok = nv['kind'] == f[0] and nv['before'] == f[1]
+            # EOF / TIMEOUT not listed by the caller: the call raises (or run() ends the same way by a private index)
+            ok = (f[0] == nv['kind'] and f[1] == nv['before']) or \
+                 (f[0] == 'idx' and not (0 <= f[1] < nev) and f[3] == nv['kind'] and f[2] == nv['before'])
         if not ok:
-            return 'call %d reported %r, naive re-search says %s' % (n, f, nv['canon'])
+            return 'call %d reported %r, naive re-search with the listed patterns says %s' % (n, f, nv['canon'])
+        if nv['kind'] not in ('hit', 'eofidx', 'timeoutidx'):
+            break
+    if out['actions'] != exp:
+        return 'responses %r, the event table prescribes %r' % (out['actions'], exp)
     if case.get('wx') and out.get('status') != case.get('exit'):
         return 'exit status %r, child exited with %r' % (out.get('status'), case.get('exit'))
     return None
